@@ -37,7 +37,7 @@ def run(ctx):
     Q = not ctx.thorough
     mc = {
         "mc_k0": dict(module="Blake2Buf_MC", cfg="Blake2Buf_Refine_K0Q.cfg" if Q else "Blake2Buf_Refine_K0.cfg", workers=ctx.pick(3, 6),
-                      coverage=ctx.thorough, note="refinement Blake2Buf => Blake2Hash, unkeyed, B=4, writes 0..9"),
+                      coverage=ctx.thorough, note="refinement Blake2Buf => Blake2Hash, unkeyed, B=4, writes 0..9 (quick: 13 bytes, marshal actions off; thorough: 9 bytes with marshal)"),
         "mc_k2": dict(module="Blake2Buf_MC", cfg="Blake2Buf_Refine_K2.cfg", workers=2, note="refinement, keyed (key block buffered at Reset), B=4"),
     }
     if ctx.thorough:
@@ -60,7 +60,8 @@ def run(ctx):
     jobs = {}
     jobs.update(mc); jobs.update(vec); jobs.update(gens)
     res = par_tlc(ctx, jobs, timeout=2400)
-    judge_mc(ctx, {k: res[k] for k in list(mc) + ["vec"]})
+    # the corruption disjunct of Next (UnmarshalCorrupt over empty value sets) is switched off in the refinement configs
+    judge_mc(ctx, {k: res[k] for k in list(mc) + ["vec"]}, disabled={"mc_k0": ["Next"], "mc_k2": ["Next"], "mc_k4": ["Next"]})
     r = res["gen"]
     if not r.ok or len(r.traces) < 100:
         raise vlib.Infra("history generator failed or produced too little: %s" % ((r.cex or r.raw[-2000:]),))
